@@ -2,6 +2,7 @@ from shexer.utils.shapes import build_shapes_name_for_class_uri
 from shexer.core.profiling.consts import POS_CLASSES, _S, _P, _O, POS_FEATURES_DIRECT, _ONE_TO_MANY, POS_FEATURES_INVERSE
 from shexer.model.IRI import IRI_ELEM_TYPE, IRI
 from shexer.model.bnode import BNode, BNODE_ELEM_TYPE
+from shexer.model.Literal import Literal
 
 class AbstractFeatureDirectionStrategy(object):
 
@@ -111,7 +112,7 @@ class AbstractFeatureDirectionStrategy(object):
         :param str_prop:
         :return:
         """
-        if str_prop != self._class_profiler._instantiation_property_str:
+        if str_prop != self._class_profiler._instantiation_property_str or isinstance(original_elem, Literal):
             return original_elem.elem_type
         return original_elem.iri
 
